@@ -7,6 +7,7 @@ import (
 	"fmt"
 
 	"github.com/lugu/qiloop/bus"
+	"github.com/lugu/qiloop/type/object"
 
 	"verif/rt/vrt"
 )
@@ -29,6 +30,10 @@ type Impl struct {
 	Gate chan struct{}
 	// InSlow is the number of slow() bodies currently executing.
 	InSlow, MaxInSlow int
+	// OnAct and OnTerm, when non-nil, run inside Activate / OnTerminate
+	// (objects that add or remove other objects from their hooks).
+	OnAct  func(a bus.Activation)
+	OnTerm func()
 }
 
 // InitialLevel is the value of the level property after activation.
@@ -57,11 +62,19 @@ func (p *Impl) Activate(activation bus.Activation, helper ProbeSignalHelper) err
 	p.Act = activation
 	p.Helper = helper
 	p.Activated++
+	if p.OnAct != nil {
+		p.OnAct(activation)
+	}
 	// the property starts at InitialLevel
 	return helper.UpdateLevel(InitialLevel)
 }
 
-func (p *Impl) OnTerminate() { p.Terminated++ }
+func (p *Impl) OnTerminate() {
+	p.Terminated++
+	if p.OnTerm != nil {
+		p.OnTerm()
+	}
+}
 
 // EchoResult is what echo computes for an argument.
 func EchoResult(x int32) int32 { return 3*x + 1 }
@@ -116,3 +129,6 @@ func (p *Impl) OnLevelChange(v int32) error {
 	p.Accepted = append(p.Accepted, v)
 	return nil
 }
+
+// ProbeMeta returns the meta-object of the Probe interface.
+func ProbeMeta() object.MetaObject { return (&stubProbe{}).metaObject() }
